@@ -1,7 +1,7 @@
 (* Lemmas about model/Conntrack.v: the table as a finite map, what one Drop does to the entry of its own flow
    ([tail_o]) and to the entries of the other flows ([shrinks]). Nothing here depends on the timer wheel: the
    wheel only decides when [evict] is called and on which flow, and [evict] deletes an entry only when the clock
-   has reached its Expires. *)
+   is strictly past its Expires. *)
 From Coq Require Import List ZArith NArith Bool Lia.
 Import ListNotations.
 From NV Require Import model.Wheel gen.Consts_Conntrack model.Conntrack.
@@ -73,10 +73,10 @@ Qed.
 
 (* ---- the Purge/evict prologue only ever removes entries whose time has come ----------------------------- *)
 
-(* [shrinks now m m']: m' is m without some entries, each of which had Expires <= now *)
+(* [shrinks now m m']: m' is m without some entries, each of which had Expires < now *)
 Definition shrinks (now : Z) (m m' : cmap) : Prop :=
   forall t, (forall c, cfind t m' = Some c -> cfind t m = Some c) /\
-            (forall c, cfind t m = Some c -> now < c_exp c -> cfind t m' = Some c).
+            (forall c, cfind t m = Some c -> now <= c_exp c -> cfind t m' = Some c).
 
 Lemma shrinks_refl now m : shrinks now m m.
 Proof. intros t. split; auto. Qed.
@@ -84,8 +84,8 @@ Proof. intros t. split; auto. Qed.
 Lemma evict_shrinks now p ct : shrinks now (ct_conns ct) (ct_conns (evict now p ct)).
 Proof.
   unfold evict. destruct (cfind p (ct_conns ct)) as [c|] eqn:F; [|apply shrinks_refl].
-  destruct (0 <? c_exp c - now) eqn:L; cbn [ct_conns]; [apply shrinks_refl|].
-  apply Z.ltb_ge in L. intros t. rewrite cfind_cdel. destruct (tuple_eqb t p) eqn:E.
+  destruct (0 <=? c_exp c - now) eqn:L; cbn [ct_conns]; [apply shrinks_refl|].
+  apply Z.leb_gt in L. intros t. rewrite cfind_cdel. destruct (tuple_eqb t p) eqn:E.
   - apply tuple_eqb_eq in E. subst t. split; [discriminate|]. intros c' F' Lt. rewrite F in F'. inversion F'; subst. lia.
   - split; auto.
 Qed.
